@@ -68,6 +68,7 @@ def gen(rng: random.Random, index: int) -> dict:
     t = 0.0
     same_state_bias = rng.choice((rng.random(), rng.random(), 0.9, 1.0))
     response_rate = rng.choice((0.0, 0.0, 0.2, 0.4, 0.6))
+    junk_rate = rng.choice((0.0, 0.0, 0.15, 0.3))
     last = True
     for _ in range(n):
         c = rng.random()
@@ -94,6 +95,11 @@ def gen(rng: random.Random, index: int) -> dict:
         else:
             on = rng.random() < 0.6
         last = on
+        if rng.random() < junk_rate:
+            # not an on/off telegram: a payload the 1-bit remote value rejects, or a GroupValueRead; the reference ignores it
+            events.append({"t": t, "on": last, "how": "junk", "junk": rng.choice(("array1", "array2", "binary_big", "read")),
+                           "as": rng.choice(("write", "write", "response"))})
+            continue
         how = "write"
         k = rng.random()
         if k < response_rate:
@@ -208,6 +214,8 @@ def run_case(ctx, spec: dict) -> str | None:
     points: list[tuple[float, int, str, dict | None]] = []
     for e in events:
         points.append((e["t"], 0, "event", e))
+        if e["how"] == "junk":
+            continue
         if r is not None and e["on"]:
             for d, tag in ((r - E, "reset-eps"), (r, "reset"), (r + E, "reset+eps")):
                 points.append((e["t"] + d, 1, tag, e))
@@ -307,6 +315,24 @@ def run_case(ctx, spec: dict) -> str | None:
                 if not probe(t, tag):
                     return
                 continue
+            if e["how"] == "junk":
+                from xknx.dpt import DPTArray
+
+                ctx.count("junk_" + e["junk"])
+                if model.state(t) and model.deadline is not None:
+                    ctx.count("junk_while_reset_timer_pending")
+                if model.window_end is not None and t < model.window_end:
+                    ctx.count("junk_while_context_window_open")
+                if e["junk"] == "read":
+                    h.incoming_read(GA)
+                else:
+                    junk = {"array1": DPTArray((1,)), "array2": DPTArray((0, 1)), "binary_big": DPTBinary(2 + (e["t"] * 64) % 60)}[e["junk"]]
+                    (h.incoming_write if e["as"] == "write" else h.incoming_response)(GA, junk)
+                trace.append(("rx-junk", t, e["junk"], e["as"]))
+                await h.settle()
+                if not probe(t, "after-junk-telegram"):
+                    return
+                continue
             on, how = e["on"], e["how"]
             payload = DPTBinary(int(on) ^ int(inv))
             ctx.count("telegram_" + ("on" if on else "off"))
@@ -400,7 +426,8 @@ def run(ctx):
                 "probe_window-eps", "probe_window", "telegram_on", "telegram_off", "how_command", "how_write", "how_response",
                 "response_judged", "response_on_while_on_must_restart_timer", "write_on_while_on_must_restart_timer",
                 "response_ignored_for_counting", "response_counted_like_a_write",
-                "reconnect_while_reset_timer_pending", "reconnect_while_context_window_open")
+                "reconnect_while_reset_timer_pending", "reconnect_while_context_window_open",
+                "junk_while_reset_timer_pending", "junk_while_context_window_open", "junk_read", "junk_array2")
     n = ctx.scale(520, 8000 * 16)
     for i in range(n):
         if not ctx.mine(i):
